@@ -134,8 +134,8 @@ contract(M + 'get_mev_for_nested', P, nla_uf=True, replay=_REPLAY_NESTED,
 # lognested = logmev(util, get_mev_for_nested(util, availability, nests), availability, choice); nested = mev(the same).
 # ONE postcondition over util / availability / nests: the log-sum-exp kernel with  h_k = V_k + c05c_lng(nests, util, av, k),
 # where c05c_lng is DEFINED in specs/c05c_specs.py (the nested-logit term of the nest of k, 0 outside every nest).
-_COVER = (f"forall(lambda q: {_IN_ALONE.replace('x in', 'c05c_key(util, q) in')} or exists(lambda a: exists(lambda p: "
-          f"c05c_key(util, q) == {T}[a].list_of_alternatives[p], 0, len({T}[a].list_of_alternatives)), 0, len({T})), 0, len(util))")
+_COVER = (f"forall(lambda q: {_IN_ALONE.replace('x in', 'keys_of(util)[q] in')} or exists(lambda a: exists(lambda p: "
+          f"keys_of(util)[q] == {T}[a].list_of_alternatives[p], 0, len({T}[a].list_of_alternatives)), 0, len({T})), 0, len(util))")
 _REQ_L = dict(_REQ)
 _REQ_L['every_alternative_alone_or_in_a_nest'] = _COVER
 
@@ -147,11 +147,11 @@ def _closed(text: str) -> str:
 
 
 _LNG = lambda k: f"c05c_lng(nests, util, {AV}, {k})"       # noqa: E731
-_KU = 'c05c_key(util, q)'
+_KU = 'keys_of(util)[q]'
 _CHN = 'int(c05c_num(choice))'
 _HN = lambda k: f"(c05c_val(util[{k}]) + {_LNG(k)})"        # noqa: E731
 _AVN = f"typed({AV}, 'dict[int, Expression]')"
-_SAMEN = f'forall(lambda q: c05c_key(util, q) in {AV}, 0, len(util))'
+_SAMEN = f'forall(lambda q: keys_of(util)[q] in {AV}, 0, len(util))'
 _T_AV_N = f"ite(c05c_val({_AVN}[{_KU}]) != 0.0, app('numpy.exp', {_HN(_KU)} - {_HN(_CHN)}), 0.0)"
 _T_FULL_N = f"app('numpy.exp', {_HN(_KU)} - {_HN(_CHN)})"
 _A_AV_N = f"{AV} is not None and {_CHN} in util and {_CHN} in {AV} and {_SAMEN} and c05c_val({_AVN}[{_CHN}]) != 0.0"
